@@ -387,7 +387,7 @@ Proof.
   - pose proof (do_delete_spec s2 fs1 ci (v_lastLogIdx s2)) as (D1 & D2).
     destruct (do_delete s2 fs1 ci (v_lastLogIdx s2)) as [[s3 ok] fs3]. simpl in D1, D2.
     destruct ok; simpl.
-    + apply store_new_ok.
+    + destruct (conflict_pred a news) as [pi pt]. apply store_new_ok.
       * destruct (ci <=? v_latestIdx s3); exact D1.
       * destruct (ci <=? v_latestIdx s3); exact D2.
       * rewrite sfilter_app. simpl. rewrite app_nil_r. reflexivity.
